@@ -45,8 +45,9 @@ ASSUMPTIONS = [
     'inverse-under-the-same-context contract proved in C04',
     'NBT values are opaque (pynbt is external)',
     'floats are reals; Angle / FixedPoint / EffectPosition / Pitch fields range over their wire-representable values',
-    'lists inside hand-written packets (icons, actions, properties, records, world names) are explored for lengths 0..2 '
-    '(complete unrolling per length; longer lists: bounded part only)',
+    'lists inside hand-written packets: byte-level units unroll them for lengths 0..2; icons, actions and properties are in '
+    'addition proved for ANY length by loop contracts (c05_lists.py: writer output unfolded element by element in front of '
+    'the reader); records / world names are PrefixedArray fields (any-length structure: C02.PrefixedArray.any-length)',
     'map offsets range over 0..127 (the writer emits them unsigned, the reader takes them signed)',
 ]
 TABLES = {
@@ -811,4 +812,5 @@ def units(tier):
             us.append(RoundTrip(*t))
     # longest first, for the process pool
     us.sort(key=lambda u: 0 if u.cls in (PlayerListItemPacket, JoinGamePacket, MapPacket) else 1)
-    return us + [GenericDefinition(), FieldString(), Ids()]
+    from . import c05_lists
+    return us + [GenericDefinition(), FieldString(), Ids()] + c05_lists.units(tier)
